@@ -1,5 +1,76 @@
-(* Wire entry points of the C16 model (stub until the model is built). *)
-From Coq Require Import ZArith List.
-From SG Require Import Base.Sx.
+(* Wire entry points of the C16 model (density estimation: system matrix, right-hand side, hats, normalisation). *)
+From Coq Require Import ZArith List Bool QArith Qcanon.
+From SG Require Import Base.Sx Base.QcUtil Model.Gram.
+Import ListNotations.
 Open Scope Z_scope.
-Definition entry_C16 (sub : Z) (a : sx) : sx := sx_err 0.
+
+Definition opt_bind {A B} (o : option A) (f : A -> option B) : option B := match o with Some a => f a | None => None end.
+Notation "'do' x <- o ; k" := (opt_bind o (fun x => k)) (at level 200, x name, o at level 100, k at level 200).
+
+Definition ret (o : option sx) : sx := match o with Some s => s | None => sx_err 2 end.
+
+(* raw (un-normalised) surpluses:  ml = mass lumping (no solve needed), otherwise the certificate is checked *)
+Definition raw_alphas (uniform ml : bool) (G : list (list Qc)) (b cert : list Qc) : bool * list Qc :=
+  if ml then
+    (true, if uniform
+           then match G with [dv] :: _ => map (fun bi => (bi * (1 / dv))%Qc) b | _ => [] end
+           else match G with R :: _ => solve_lumped_nonuniform R b | _ => [] end)
+  else (check_solution G cert b, cert).
+
+Definition entry_C16 (sub : Z) (a : sx) : sx :=
+  match sub, a with
+  (* uniform system: (levelvec lambda masslumping data signs) -> (R b) *)
+  | 0, Lv [lv; lam; ml; data; signs] => ret (
+      do lv <- get_LZ lv; do lam <- get_Qc lam; do ml <- get_bool ml;
+      do data <- get_LLQc data; do signs <- get_LQc signs;
+      Some (Lv [ if ml then of_LLQc [[diag_val lv]] else of_LLQc (R_matrix_uniform lv lam);
+                 of_LQc (rhs_uniform lv data signs) ]))
+  (* non-uniform system: (stripes lambda masslumping data signs) -> (R b weights) *)
+  | 1, Lv [stripes; lam; ml; data; signs] => ret (
+      do stripes <- get_LLQc stripes; do lam <- get_Qc lam; do ml <- get_bool ml;
+      do data <- get_LLQc data; do signs <- get_LQc signs;
+      let pts := grid_hats stripes in
+      Some (Lv [ if ml then of_LLQc [R_lumped_nonuniform pts lam] else of_LLQc (R_matrix_nonuniform pts lam);
+                 of_LQc (rhs pts data signs);
+                 of_LQc (tensor_weights stripes) ]))
+  (* solve + normalise: (uniform ml G b certificate labelled weights) -> (certificate_ok raw final integral) *)
+  | 2, Lv [uni; ml; G; b; cert; lab; w] => ret (
+      do uni <- get_bool uni; do ml <- get_bool ml; do G <- get_LLQc G; do b <- get_LQc b;
+      do cert <- get_LQc cert; do lab <- get_bool lab; do w <- get_LQc w;
+      let '(ok, raw) := raw_alphas uni ml G b cert in
+      let '(fin, integ) := if uni then normalise_uniform lab raw else normalise_weighted lab w raw in
+      Some (Lv [sx_bool ok; of_LQc raw; of_LQc fin; of_Qc integ]))
+  (* hat variants on a non-uniform grid: (stripes points) -> per point, per hat (scalar cv vec) *)
+  | 4, Lv [stripes; pts] => ret (
+      do stripes <- get_LLQc stripes; do pts <- get_LLQc pts;
+      let hs := grid_hats stripes in
+      Some (Lv (map (fun x => Lv (map (fun t =>
+              of_LQc [hat_nd hat_scalar t x; hat_nd hat_cv t x; hat_nd hat_vec t x]) hs)) pts)))
+  (* hat variants on a uniform grid: (levelvec points) -> per point, per hat (clamped unclamped) *)
+  | 5, Lv [lv; pts] => ret (
+      do lv <- get_LZ lv; do pts <- get_LLQc pts;
+      Some (Lv (map (fun x => Lv (map (fun iv =>
+              of_LQc [hat_u_nd hat_u lv iv x; hat_u_nd hat_u_insupp lv iv x]) (index_list lv))) pts)))
+  (* right-hand sides of the large-grid code paths *)
+  | 6, Lv [stripes; data; signs] => ret (
+      do stripes <- get_LLQc stripes; do data <- get_LLQc data; do signs <- get_LQc signs;
+      Some (of_LQc (rhs_large stripes data signs)))
+  | 7, Lv [lv; data; signs] => ret (
+      do lv <- get_LZ lv; do data <- get_LLQc data; do signs <- get_LQc signs;
+      Some (of_LQc (rhs_uniform_large lv data signs)))
+  (* interpolant of one component grid *)
+  | 8, Lv [stripes; al; pts] => ret (
+      do stripes <- get_LLQc stripes; do al <- get_LQc al; do pts <- get_LLQc pts;
+      Some (of_LQc (map (interp (grid_hats stripes) al) pts)))
+  | 9, Lv [lv; al; pts] => ret (
+      do lv <- get_LZ lv; do al <- get_LQc al; do pts <- get_LLQc pts;
+      Some (of_LQc (map (interp_uniform lv al) pts)))
+  (* right-hand sides only (small-grid path) *)
+  | 10, Lv [stripes; data; signs] => ret (
+      do stripes <- get_LLQc stripes; do data <- get_LLQc data; do signs <- get_LQc signs;
+      Some (of_LQc (rhs (grid_hats stripes) data signs)))
+  | 11, Lv [lv; data; signs] => ret (
+      do lv <- get_LZ lv; do data <- get_LLQc data; do signs <- get_LQc signs;
+      Some (of_LQc (rhs_uniform lv data signs)))
+  | _, _ => sx_err 0
+  end.
